@@ -206,3 +206,14 @@ Section Refs.
         unfold entry_points. simpl. right. rewrite !in_app_iff. apply in_app_iff in Hx. tauto.
   Qed.
 End Refs.
+
+(** the same about the implementation's (model's) own output *)
+Theorem introspect_refs_resolve (D : Type) (pr : sty -> option gval -> D) S F r :
+  depth_ok S = true -> gating_coherent S F = true -> interfaces_declared_once S = true -> locations_known S = true ->
+  refs_defined S = true -> gating_nested S = true -> roots_visible S F = true ->
+  introspect pr S F = IntroOk r -> refs_resolve (normalise r) = true.
+Proof.
+  intros H1 H2 H3 H4 H5 H6 H7 Hr.
+  destruct (introspect_describes D pr S F H1 H2 H3 H4) as [r' [Hr' E]]. rewrite Hr in Hr'. inversion Hr'; subst r'.
+  rewrite E. apply describe_refs_resolve; auto.
+Qed.
